@@ -83,6 +83,43 @@ package ggml
 //@   ensures result == nil && len(llm.tensors) == 0 ==> rs.ghost_pos == ghost_hdr
 //@   modifies llm.scratch, llm.kv, llm.tensors, llm.parameters, llm.tensorOffset
 //@   loop 3 invariant 0 <= i && i <= dims
+// ---- added by the C05/C10 audit (appended: numbering of the clauses above is unchanged) ----
+// C05 "decodes to the same keys and values": the value read for a key has the Go type that the
+// file's type tag names - the reader called in each case is the one for that tag (tag values
+// are the GGUF constants the writer's ggufWriteKV passes to writeGGUF / writeGGUFArray).
+//@   assert-at after call readGGUF #2 : t == 0 && 0 <= result.0 && result.0 < 256
+//@   assert-at after call readGGUF #3 : t == 1 && -128 <= result.0 && result.0 < 128
+//@   assert-at after call readGGUF #4 : t == 2 && 0 <= result.0 && result.0 < 65536
+//@   assert-at after call readGGUF #5 : t == 3 && -32768 <= result.0 && result.0 < 32768
+//@   assert-at after call readGGUF #6 : t == 4 && 0 <= result.0 && result.0 < (1 << 32)
+//@   assert-at after call readGGUF #7 : t == 5 && -(1 << 31) <= result.0 && result.0 < (1 << 31)
+//@   assert-at after call readGGUF #8 : t == 10 && 0 <= result.0 && result.0 < (1 << 64)
+//@   assert-at after call readGGUF #9 : t == 11 && -(1 << 63) <= result.0 && result.0 < (1 << 63)
+//@   assert-at after call readGGUF #10 : t == 6
+//@   assert-at after call readGGUF #11 : t == 12
+//@   assert-at after call readGGUF #12 : t == 7
+//@   assert-at after call readGGUFString #2 : t == 8
+//@   assert-at after call readGGUFArray #1 : t == 9
+// C05 "the same tensor names, types and shapes": the decoded tensor carries the fields read
+// for it (name, dims x shape, kind, offset - the record ggufWriteTensorInfo writes)
+//@   assert-at store Name : stored == name
+//@   assert-at store Kind : stored == kind
+//@   assert-at store Offset #1 : stored == offset
+//@   assert-at store Shape : len(stored) == dims && blk(stored) == blk(shape)
+// C05 "the bytes found at its decoded location": the data section starts at the aligned end of
+// the header (the writer's first ggufWriteTensor pads from exactly there)
+//@   assert-at store tensorOffset : stored == ghost_hdr + pad(ghost_hdr, alignment)
+// C05 "the end offset reported by the decoder equals the file length": nothing is skipped after
+// the last tensor's data, every tensor is stepped over
+//@   ghost-at after call Seek #4 : ghost_dlast := rs.ghost_pos
+//@   loop 4 invariant rangeindex >= 0 ==> rs.ghost_pos == ghost_dlast
+//@   ensures result == nil && len(llm.tensors) > 0 ==> rs.ghost_pos == ghost_dlast
+// C10 "never allocates memory out of proportion to the size of the input": when a shape entry
+// is read, the shape slice allocated for this tensor exceeds the entries read so far by at most
+// a constant (holds for a bounded dims as well as for a slice grown as data arrives).
+// GENUINE FINDING on the pinned tree: make([]uint64, dims) with dims <= 2^32-1 taken from the
+// file (86-byte file -> 1 GiB; 32 GiB at the maximum), reproduced - see audit report.
+//@   assert-at call readGGUF #14 : len(shape) <= i + 64
 
 //@ func (*containerGGUF).Decode
 //@   modifies *c
@@ -90,15 +127,57 @@ package ggml
 //@ func (Tensor).blockSize
 //@   pure reads none
 //@   ensures result == 1 || result == 32 || result == 256
+// C05 "any supported type": elements per block of each GGML type (ggml type traits); the byte
+// size that places every following tensor is parameters * typeSize / blockSize
+//@   ensures (t.Kind == 0 || t.Kind == 1 || (24 <= t.Kind && t.Kind <= 28) || t.Kind == 30) ==> result == 1
+//@   ensures (t.Kind == 2 || t.Kind == 3 || (6 <= t.Kind && t.Kind <= 9) || t.Kind == 20) ==> result == 32
+//@   ensures ((10 <= t.Kind && t.Kind <= 19) || (21 <= t.Kind && t.Kind <= 23) || t.Kind == 29) ==> result == 256
 
 //@ func (Tensor).typeSize
 //@   pure reads none
+// bytes per block of each GGML type (sizeof(block_*) in ggml-common.h)
+//@   ensures t.Kind == 0 ==> result == 4
+//@   ensures t.Kind == 1 ==> result == 2
+//@   ensures t.Kind == 2 ==> result == 18
+//@   ensures t.Kind == 3 ==> result == 20
+//@   ensures t.Kind == 6 ==> result == 22
+//@   ensures t.Kind == 7 ==> result == 24
+//@   ensures t.Kind == 8 ==> result == 34
+//@   ensures t.Kind == 9 ==> result == 36
+//@   ensures t.Kind == 10 ==> result == 84
+//@   ensures t.Kind == 11 ==> result == 110
+//@   ensures t.Kind == 12 ==> result == 144
+//@   ensures t.Kind == 13 ==> result == 176
+//@   ensures t.Kind == 14 ==> result == 210
+//@   ensures t.Kind == 15 ==> result == 292
+//@   ensures t.Kind == 16 ==> result == 66
+//@   ensures t.Kind == 17 ==> result == 74
+//@   ensures t.Kind == 18 ==> result == 98
+//@   ensures t.Kind == 19 ==> result == 50
+//@   ensures t.Kind == 20 ==> result == 18
+//@   ensures t.Kind == 21 ==> result == 110
+//@   ensures t.Kind == 22 ==> result == 82
+//@   ensures t.Kind == 23 ==> result == 136
+//@   ensures t.Kind == 24 ==> result == 1
+//@   ensures t.Kind == 25 ==> result == 2
+//@   ensures t.Kind == 26 ==> result == 4
+//@   ensures t.Kind == 27 ==> result == 8
+//@   ensures t.Kind == 28 ==> result == 8
+//@   ensures t.Kind == 29 ==> result == 56
+//@   ensures t.Kind == 30 ==> result == 2
 
 //@ func (Tensor).parameters
 //@   pure reads uint64
 
 //@ func (Tensor).Size
 //@   pure reads uint64
+//@   ensures result == wrapuint64(t.parameters() * t.typeSize()) / t.blockSize()
+
+// C05 "the end offset reported by the decoder": what ggml.Decode returns as the offset is the
+// read position after the container has been decoded (the position query that follows it)
+//@ func Decode
+//@   ghost-at after call Seek #1 : ghost_endoff := result.0
+//@   ensures result.2 == nil ==> result.1 == ghost_endoff && result.0 != nil
 
 //@ func DetectContentType
 //@   modifies nothing
@@ -160,19 +239,50 @@ package ggml
 // ---- previous tensor's data relative to the start of the data section.
 
 //@ spec func pad(off int, al int) int = (al - off % al) % al
+// an arbitrary but fixed tensor index (uninterpreted): a clause proved for it holds for every index
+//@ spec func anytensor(z int) int
 
 //@ lemma pad_aligned(off int, al int)
 //@   requires al > 0 && off >= 0
 //@   ensures 0 <= pad(off, al) && pad(off, al) < al && (off + pad(off, al)) % al == 0
 
+// library frame conditions used by WriteGGUF (trusted): collecting and sorting the keys of the
+// metadata map writes nothing but the fresh key slice
+//@ extern func maps.Keys
+//@   modifies nothing
+//@ extern func slices.Collect
+//@   modifies nothing
+//@ extern func slices.Sort
+//@   modifies x[all]
+
 //@ func ggufWriteTensorInfo
 //@   modifies ws.ghost_pos
+// C05 "same tensor names, types and shapes": a tensor info is exactly the record the decoder
+// reads back (gguf.Decode: string = u64 length + bytes, u32 dims, dims x u64, u32 kind, u64
+// offset), field by field in that order and with those widths - a dropped, duplicated,
+// reordered or re-sized field shifts everything the decoder reads after it.
+//@   ghost-at entry : ghost_w0 := ws.ghost_pos
+//@   assert-at call Write #1 : binsize(arg2) == 8
+//@   assert-at call Write #2 : binsize(arg2) == len(t.Name) && ws.ghost_pos == ghost_w0 + 8
+//@   assert-at call Write #3 : binsize(arg2) == 4 && ws.ghost_pos == ghost_w0 + 8 + len(t.Name)
+//@   loop 1 invariant ws.ghost_pos == ghost_w0 + 8 + len(t.Name) + 4 + 8 * i
+//@   assert-at call Write #4 : binsize(arg2) == 8
+//@   assert-at call Write #5 : binsize(arg2) == 4 && ws.ghost_pos == ghost_w0 + 8 + len(t.Name) + 4 + 8 * len(t.Shape)
+//@   assert-at call Write #6 : binsize(arg2) == 8 && ws.ghost_pos == ghost_w0 + 8 + len(t.Name) + 4 + 8 * len(t.Shape) + 4
+//@   ensures result == nil ==> ws.ghost_pos == old(ws.ghost_pos) + 8 + len(t.Name) + 4 + 8 * len(t.Shape) + 4 + 8
 
 //@ func ggufWriteTensor
 //@   requires alignment > 0 && alignment < (1 << 62)
 //@   modifies ws.ghost_pos
 //@   assume-at after call WriteTo #1 : result.1 == nil ==> result.0 == t.Size()    -- what callers of WriteGGUF owe: a tensor's WriterTo writes exactly Size() bytes
 //@   ensures result == nil ==> ws.ghost_pos == old(ws.ghost_pos) + pad(old(ws.ghost_pos), alignment) + t.Size()
+// C05 "the bytes found at its decoded location ... at an offset aligned to the file's alignment":
+// the padding comes BEFORE the data - when the tensor's own writer starts, the stream (this
+// stream) stands at the aligned position; nothing is written after the data.
+//@   ghost-at entry : ghost_p0 := ws.ghost_pos
+//@   assert-at call WriteTo #1 : arg1 == ws && ws.ghost_pos == ghost_p0 + pad(ghost_p0, alignment) && ws.ghost_pos % alignment == 0
+//@   ghost-at after call WriteTo #1 : ghost_dend := ws.ghost_pos
+//@   ensures result == nil ==> ws.ghost_pos == ghost_dend
 
 // WriteGGUF: the offset declared for a tensor is the aligned end of the previous tensor,
 // i.e. declared offsets obey  off(0) = 0, off(i+1) = alignup(off(i) + Size(i));
@@ -189,3 +299,64 @@ package ggml
 //@   assume-at call ggufWriteTensorInfo #1 : alignment < (1 << 40)
 //@   loop 2 invariant s == ghost_end
 //@   loop 2 invariant s <= (rangeindex + 1) * (1 << 41)
+// ---- added by the C05 audit (appended: the numbering of the clauses above is unchanged) ----
+// Header: magic (4 bytes), version (u32), tensor count (u64), KV count (u64) - the 24 bytes the
+// decoder consumes before the first key (ggml.Decode: u32 magic; containerGGUF.Decode: u32
+// version + V3{NumTensor, NumKV uint64}).
+//@   ghost-at entry : ghost_w0 := ws.ghost_pos
+//@   assert-at call Write #1 : binsize(arg2) == 4
+//@   assert-at call Write #2 : binsize(arg2) == 4 && ws.ghost_pos == ghost_w0 + 4
+//@   assert-at call Write #3 : binsize(arg2) == 8 && ws.ghost_pos == ghost_w0 + 8
+//@   assert-at call Write #4 : binsize(arg2) == 8 && ws.ghost_pos == ghost_w0 + 16
+//@   loop 1 invariant rangeindex == -1 ==> ws.ghost_pos == ghost_w0 + 24
+// The stream holds nothing but: header, KVs, tensor infos, then per tensor padding + data.
+// Nothing between the last tensor info and the first tensor's padding (the decoder takes the
+// aligned end of the infos as the start of the data section), nothing after the last tensor's
+// data (the decoder's end offset must be the file length).
+//@   ghost-at after call ggufWriteTensorInfo #1 : ghost_hend := ws.ghost_pos
+//@   loop 2 invariant rangeindex >= 0 ==> ws.ghost_pos == ghost_hend
+//@   loop 3 invariant rangeindex == -1 && len(ts) > 0 ==> ws.ghost_pos == ghost_hend
+//@   ghost-at after call ggufWriteTensor #1 : ghost_last := ws.ghost_pos
+//@   loop 3 invariant rangeindex >= 0 ==> ws.ghost_pos == ghost_last
+//@   ensures result == nil && len(ts) > 0 ==> ws.ghost_pos == ghost_last
+// The i-th data block belongs to the i-th tensor info (same list, same order, list untouched
+// in between): the tensor declared at position i is the tensor written at position i, for
+// every i (anytensor(0) is an arbitrary index). A tensor is identified by its shape array,
+// kind and name length (its byte size, which the layout depends on, is a function of these).
+//@   ghost-at after call ggufWriteTensorInfo #1 : ghost_shj := ite(rangeindex + 1 == anytensor(0), blk(t.Shape), ghost_shj)
+//@   ghost-at after call ggufWriteTensorInfo #1 : ghost_kdj := ite(rangeindex + 1 == anytensor(0), t.Kind, ghost_kdj)
+//@   ghost-at after call ggufWriteTensorInfo #1 : ghost_nmj := ite(rangeindex + 1 == anytensor(0), len(t.Name), ghost_nmj)
+//@   loop 2 invariant 0 <= anytensor(0) && anytensor(0) <= rangeindex ==> ghost_shj == blk(ts[anytensor(0)].Shape) && ghost_kdj == ts[anytensor(0)].Kind && ghost_nmj == len(ts[anytensor(0)].Name)
+//@   assert-at call ggufWriteTensor #1 : rangeindex + 1 == anytensor(0) ==> blk(arg1.Shape) == ghost_shj && arg1.Kind == ghost_kdj && len(arg1.Name) == ghost_nmj
+
+// C05 "decodes to the same keys and values": the type tag written for a value is the GGUF
+// constant of its Go type (the constants gguf.Decode / readGGUFArray switch on), the key is
+// written as u64 length + bytes (what readGGUFString reads)
+//@ func ggufWriteKV
+//@   assert-at call Write #1 : binsize(arg2) == 8
+//@   assert-at call Write #2 : binsize(arg2) == len(k)
+//@   assert-at call writeGGUF #1 : arg1 == 4
+//@   assert-at call writeGGUF #2 : arg1 == 6
+//@   assert-at call writeGGUF #3 : arg1 == 7
+//@   assert-at call writeGGUFArray #1 : arg1 == 5
+//@   assert-at call writeGGUFArray #2 : arg1 == 4
+//@   assert-at call writeGGUFArray #3 : arg1 == 6
+//@   assert-at call Write #3 : binsize(arg2) == 4
+//@   assert-at call Write #4 : binsize(arg2) == 4
+//@   assert-at call Write #5 : binsize(arg2) == 8
+//@   assert-at call Write #6 : binsize(arg2) == 8
+//@   assert-at call Write #7 : binsize(arg2) == len(e)
+
+// ---- C10 audit: the typed array accessors (the KV.* helpers of "where it lives"). They index
+// ---- and type-assert what the file declared.
+// ---- GENUINE FINDING (reproduced, see audit report): the element type of an array is whatever
+// ---- the file declared, the accessors assert string / int32 / float32 without a check ->
+// ---- safe.typeassert.1 of each fails on the pinned tree. Only the type assertions are claimed
+// ---- here; the index r.values[i] additionally needs "the array was collected" (callers decode
+// ---- with maxArraySize -1), which is not stated.
+//@ func (KV).Strings
+//@   opt safe typeassert
+//@ func (KV).Uints
+//@   opt safe typeassert
+//@ func (KV).Floats
+//@   opt safe typeassert
